@@ -17,7 +17,7 @@ from . import common, e2, e3, e3_gen
 
 PID = "C01"
 PROPS_FILE = "props/C01.v"
-MODEL_TARGETS = ["model/NoStale.vo", "model/Engine.vo"]
+MODEL_TARGETS = ["model/NoStale.vo", "model/Engine.vo", "model/EnginePlan.vo"]
 RULE = ("E3 differential oracle: seeded generator of projects (static files, static trees, static patterns, "
         "globs with one step per match, chains / diamonds, multiple and volatile outputs, env vars, optional "
         "steps, resources, script steps that amend inputs / outputs / env, sub-plans with hold/release) and "
@@ -124,6 +124,8 @@ def engine_correspondence(ctx):
         return
     c01_engine.correspondence(ctx)
     c01_engine.correspondence_amend(ctx)
+    from . import c01_plan
+    c01_plan.correspondence_plan(ctx)
 
 
 # ---------------------------------------------------------------------------------------------
